@@ -52,7 +52,7 @@ func clonePlan(p *plan.Plan) *plan.Plan {
 
 // makeReplay confirms the violation in a fresh process and minimises the plan
 // while the same signature persists.
-func makeReplay(rn *runner, v *variant, f foundViolation, shrink bool) *Replay {
+func makeReplay(rn *runner, v *variant, f foundViolation, shrink bool, tier string) *Replay {
 	rp := &Replay{Property: f.Plan.Prop, Variant: f.Variant, Seed: f.Seed, Index: f.Index, Violation: f.V,
 		How: "cd /verif && ./check " + f.Plan.Prop + " --replay <this file>"}
 	cur := clonePlan(f.Plan)
@@ -82,7 +82,11 @@ func makeReplay(rn *runner, v *variant, f foundViolation, shrink bool) *Replay {
 	if !rp.Reproduced || !shrink {
 		return rp
 	}
-	deadline := time.Now().Add(90 * time.Second)
+	budget := 25 * time.Second
+	if tier == "thorough" {
+		budget = 120 * time.Second
+	}
+	deadline := time.Now().Add(budget)
 	progress := true
 	for progress && time.Now().Before(deadline) && rp.Tried < 400 {
 		progress = false
